@@ -5,6 +5,7 @@ Template directives (all are `//@...` comment lines inside an ordinary .rs file)
   //@include <path relative to /verif>            paste a file (spec code, generated tables)
   //@item <src> <struct|enum> <Name> [drop-derive] paste a type definition verbatim from /repo/src
       //@field-type <field> <Type>                 (R9) replace the declared type of one field
+      //@derives <Trait> ..                        the item must carry #[derive(.. Trait ..)] (contracts assume the derived impl)
   //@fn <src> <Impl>::<name>                        paste a real function; sub-directives until //@endfn
       //@vis <text>            visibility to print (default: pub)
       //@ret <name>            name for the return value  ->  `-> (name: T)`
@@ -93,8 +94,12 @@ def pat_ident(p):
 
 
 class Expander:
-    def __init__(self, template_path, vacuity=False):
+    def __init__(self, template_path, vacuity=False, force_assume=()):
         self.vacuity = vacuity
+        # functions to keep as assumed contracts for this run because their body could not be extracted
+        # or is rejected by the verifier (partial degradation: the rest of the unit is still verified)
+        self.force_assume = set(force_assume)
+        self.lost = {}
         self.tpath = template_path
         self.sources = {}
         self.functions = []     # metadata of every pasted function
@@ -124,7 +129,16 @@ class Expander:
                 rel, kind, name = parts[1], parts[2], parts[3]
                 fields = {}
                 i += 1
-                while i < n and lines[i].strip().startswith('//@field-type '):
+                while i < n and lines[i].strip().startswith(('//@field-type ', '//@derives ')):
+                    if lines[i].strip().startswith('//@derives '):
+                        # the contracts assume a compiler-derived impl (e.g. Default): require the derive to be there
+                        attrs = rsx.item_attrs(self.src(rel), kind, name)
+                        ders = set(x.strip() for d in re.findall(r'#\[derive\(([^)]*)\)\]', attrs) for x in d.split(','))
+                        for want in lines[i].strip().split()[1:]:
+                            if want not in ders:
+                                raise LostAnchor('%s: %s %s no longer derives %s (contracts assume the derived impl)' % (rel, kind, name, want))
+                        i += 1
+                        continue
                     _, f, t = lines[i].strip().split(None, 2)
                     fields[f] = t
                     i += 1
@@ -429,18 +443,31 @@ class Expander:
         impl = qual.split('::')[0]
         vname = '%s::%s' % (impl, newname or name)
         self.begin(vname)
-        if spec.assume:
+        body = None
+        forced = False
+        if not spec.assume:
+            if vname in self.force_assume:
+                forced = True
+                self.lost.setdefault(vname, 'rejected by the verifier front end')
+            else:
+                try:
+                    body = self.weave(s.body(fn), spec, label)
+                except LostAnchor as e:
+                    forced = True
+                    self.lost[vname] = str(e)
+        if spec.assume or forced:
             self.out.append('#[verifier::external_body]')
             self.out.append(hdr)
             self.out.append('{ unimplemented!() }')
             self.rules_used.add('R8')
         else:
-            body = self.weave(s.body(fn), spec, label)
             self.out.append(hdr)
             self.out.append('{' + body + '}')
         self.end(vname)
-        self.record(rel, qual, s, fn, vname, spec.assume, props=spec.props)
-        if self.vacuity and not spec.assume:
+        self.record(rel, qual, s, fn, vname, spec.assume or forced, props=spec.props)
+        if forced:
+            self.functions[-1]['lost'] = self.lost[vname]
+        if self.vacuity and not spec.assume and not forced:
             self._twin = True
             hdr2, _ = self.signature(fn['sig'], spec, (newname or name) + '__vac')
             self._twin = False
@@ -483,24 +510,37 @@ class Expander:
             label = '%s[%s]' % (qual, np)
             vname = '%s::%s' % (qual.split('::')[0], ident)
             self.begin(vname)
-            if aspec.assume:
+            text = None
+            forced = False
+            if not aspec.assume:
+                if vname in self.force_assume:
+                    forced = True
+                    self.lost.setdefault(vname, 'rejected by the verifier front end')
+                else:
+                    try:
+                        inner = arm[1:-1] if is_block else ' ' + arm + ' '
+                        if suffix:
+                            inner = inner.rstrip()
+                            if not is_block and not inner.endswith(';'):
+                                inner += ';'
+                            inner = '{' + inner + '}\n' + suffix + '\n'
+                        text = self.weave((prefix + '\n' if prefix else '') + inner, aspec, label)
+                    except LostAnchor as e:
+                        forced = True
+                        self.lost[vname] = str(e)
+            if aspec.assume or forced:
                 self.out.append('#[verifier::external_body]')
                 self.out.append(hdr)
                 self.out.append('{ unimplemented!() }')
                 self.rules_used.add('R8')
             else:
-                inner = arm[1:-1] if is_block else ' ' + arm + ' '
-                if suffix:
-                    inner = inner.rstrip()
-                    if not is_block and not inner.endswith(';'):
-                        inner += ';'
-                    inner = '{' + inner + '}\n' + suffix + '\n'
-                text = self.weave((prefix + '\n' if prefix else '') + inner, aspec, label)
                 self.out.append(hdr)
                 self.out.append('{' + text + '}')
             self.end(vname)
-            self.record(rel, qual, s, fn, vname, aspec.assume, arm=np, props=aspec.props)
-            if self.vacuity and not aspec.assume and not aspec.vacuous_ok:
+            self.record(rel, qual, s, fn, vname, aspec.assume or forced, arm=np, props=aspec.props)
+            if forced:
+                self.functions[-1]['lost'] = self.lost[vname]
+            if self.vacuity and not aspec.assume and not aspec.vacuous_ok and not forced:
                 self._twin = True
                 hdr2, _ = self.signature(fn['sig'], aspec, ident + '__vac', cond)
                 self._twin = False
@@ -572,8 +612,8 @@ def split_top(s):
     return out
 
 
-def build_unit(template, out_path, vacuity=False):
-    ex = Expander(template, vacuity=vacuity)
+def build_unit(template, out_path, vacuity=False, force_assume=()):
+    ex = Expander(template, vacuity=vacuity, force_assume=force_assume)
     text = ex.expand()
     # line ranges of every pasted function in the generated unit
     ranges = {}
